@@ -797,7 +797,7 @@ def tools_case_strategy():
 
     @st.composite
     def tools_case(draw):
-        return {"file": draw(st.integers(0, 10 ** 6)), "kind": draw(st.sampled_from(["truncate", "tag", "byte", "text", "dup", "intact"])),
+        return {"file": draw(st.integers(0, 10 ** 6)), "kind": draw(st.sampled_from(["truncate", "tag", "byte", "text", "dup", "intact", "bigint"])),
                 "pos": draw(st.integers(0, 10 ** 6)), "val": draw(st.integers(0, 255)),
                 "tool": draw(st.sampled_from(["compare-xyz", "gama-local-deformation"])), "second_intact": draw(st.booleans())}
     return tools_case()
@@ -828,6 +828,15 @@ def oracle_tools(c, stats):
         j = body.find(b"<point>", k)
         e = body.find(b"</point>", j)
         bad = body if j < 0 or e < 0 else body[:e + 8] + body[j:e + 8] + body[e + 8:]
+    elif c["kind"] == "bigint":
+        # an integer field beyond the range of int: the readers must refuse the file (a wrapped value is data that was not
+        # supplied); 2^32 + v wraps to v exactly, so nothing else in the file looks inconsistent
+        ms = list(re.finditer(rb"<(equations|unknowns|degrees-of-freedom|defect|dim|band|ind|count-xyz|count-xy|count-z)>(\d+)</\1>", body))
+        if not ms:
+            return []
+        m = ms[c["pos"] % len(ms)]
+        big = [2 ** 32, 2 ** 33, 3 * 2 ** 32, 2 ** 64, 10 ** 20][c["val"] % 5]
+        bad = body[:m.start(2)] + str(int(m.group(2)) + big).encode() + body[m.end(2):]
     else:
         bad = body
     stats.label("tools." + c["kind"], "tools." + c["tool"])
@@ -839,6 +848,9 @@ def oracle_tools(c, stats):
     if crash is not None:
         return ["tools.%s.%s: %s on a damaged results file (%s of %s at %d): %s" %
                 (c["tool"], crash["kind"].split(":")[0], crash["kind"], c["kind"], os.path.basename(f), k, crash["frame"])]
+    if c["kind"] == "bigint" and rc == 0:
+        return ["tools.%s.bigint_accepted: exit 0 for %s with an integer field beyond int (%s)" %
+                (c["tool"], os.path.basename(f), bad[m.start(1) - 1:m.start(2) + 24].decode("ascii", "replace"))]
     return []
 
 
